@@ -72,6 +72,9 @@ var c18Tpls = map[string]string{
 	"e4.html": "line1\nline2 {% for k, 'v' in l %}x{% endfor %}",
 	// a list with spare capacity that the calls share, merged with per-call elements
 	"mg.txt": "{{ shl|merge([x, y])|join('|') }};{{ shl|merge([x])|merge([y])|length }};{{ shl|join }}",
+	// two-word operators whose gap is spelled differently in every schedule / iteration (c18Gap): state that the parser
+	// keeps per spelling of an operator outside the parse is written on every such parse
+	"op.txt": "{{ x not\x00in l ? 'n' : 'i' }}{{ y starts\x00with '<' ? 1 : 0 }}{{ y is\x00not empty ? 1 : 0 }}{{ l[0] ends\x00with '<' ? 1 : 0 }}|{{ x }}",
 	"f.js":   "{% if x matches pat %}g('{{ y }}'){% endif %}{% for i in l %}{{ i }};{% endfor %}{{ x starts with pat ? 1 : 0 }}",
 }
 
@@ -101,7 +104,7 @@ var c18Ops = []c18Op{
 	{false, "tf.txt", false, ""}, {false, "tn.txt", false, ""},
 	{false, "sv.html", false, ""}, {false, "sv.js", false, ""}, {false, "q.html", false, ""},
 	{false, "rw.txt", false, "inv#7|5#y|inv"},
-	{false, "e3.html", false, ""}, {false, "mg.txt", false, ""},
+	{false, "e3.html", false, ""}, {false, "mg.txt", false, ""}, {false, "op.txt", false, ""},
 }
 
 // c18Epoch makes template names and patterns unique per schedule / iteration ("a~17.html" is served like
@@ -192,13 +195,26 @@ func c18Ctx0(k int64, v int) map[string]stick.Value {
 		"base": c18Name("a.html", k), "inc": c18Name("c.txt", k), "inc2": c18Name("k.txt", k), "ub": c18Name("ub.html", k), "pat": "^" + first + ".{0," + strconv.FormatInt(k%997+1, 10) + "}"}
 }
 
+// c18Gap: the blanks between the two words of an operator, a spelling of its own per epoch (the number in the
+// template's name written in blanks and tabs after two blanks); never the single blank of the canonical spelling
+func c18Gap(name string) string {
+	g := "  "
+	if m := c18Suffix.FindString(name); len(m) > 1 && m[0] == '~' {
+		k, _ := strconv.ParseInt(m[1:], 10, 64)
+		for ; k > 0; k >>= 1 {
+			g += string(" \t"[k&1])
+		}
+	}
+	return g
+}
+
 // c18Loader: map lookup, falling back to the name as source (inline templates); a point before each load.
 type c18Loader struct{ s *core.Sched }
 
 func (l *c18Loader) Load(name string) (stick.Template, error) {
 	l.s.Point()
 	if src, ok := c18Tpls[c18Suffix.ReplaceAllString(name, "")]; ok {
-		return &memTpl{name, src}, nil
+		return &memTpl{name, strings.ReplaceAll(src, "\x00", c18Gap(name))}, nil
 	}
 	return &memTpl{name, name}, nil
 }
@@ -227,7 +243,7 @@ func c18Env(kind int, s *core.Sched) *stick.Env {
 		}
 		os.MkdirAll(dir, 0o755)
 		for n, src := range c18Tpls {
-			os.WriteFile(filepath.Join(dir, n), []byte(src), 0o644)
+			os.WriteFile(filepath.Join(dir, n), []byte(strings.ReplaceAll(src, "\x00", " \t ")), 0o644)
 		}
 		env = twig.New(stick.NewFilesystemLoader(dir))
 		env.Filters["markjs"] = func(ctx stick.Context, val stick.Value, args ...stick.Value) stick.Value {
@@ -589,7 +605,7 @@ func c18Levels(tier string) []core.Level {
 		nTriples = len(triples)
 	}
 	lv := []core.Level{
-		{Name: "twig env: pairs of 30 operations (incl. the same one twice), all schedules with <= 1 preemption", Gen: func(emit func(core.Case)) { pairs(0, 1, emit) }},
+		{Name: "twig env: pairs of 31 operations (incl. the same one twice), all schedules with <= 1 preemption", Gen: func(emit func(core.Case)) { pairs(0, 1, emit) }},
 		{Name: fmt.Sprintf("twig env: all pairs (but those with the two filter operations), all schedules with <= %d preemptions", bound), Gen: func(emit func(core.Case)) { pairs(0, bound, emit) }},
 		{Name: "core env: all pairs, all schedules with <= 1 preemption", Gen: func(emit func(core.Case)) { pairs(1, 1, emit) }},
 		{Name: fmt.Sprintf("twig env: %d three-thread scenarios, all schedules with <= 2 preemptions", nTriples), Gen: func(emit func(core.Case)) {
